@@ -21,6 +21,24 @@ Theorem C08_typed_float_eq : forall farith fpow fcmp i2f o l r,
 Proof. exact typed_float_eq. Qed.
 Print Assumptions C08_typed_float_eq.
 
+(* The instruction the compiler SELECTS from the static type (`typed`): on the unchanged code it
+   emits EQUAL_INT for `==` between Floats, whose type assertion crashes (known finding
+   eq:F/F:variant-crash:typed; a compiler test pins that opcode, so it is recorded, not fixed) *)
+Theorem C08_typed_selection_refuted : forall farith fpow fcmp i2f, exists o l r,
+  is_float l = true /\ has_float_opcode o = true /\ right_ok o r = true /\
+  typed farith fpow fcmp i2f o l r <> generic farith fpow fcmp i2f o l r.
+Proof. exact typed_refuted. Qed.
+Print Assumptions C08_typed_selection_refuted.
+
+(* the full statement restricted to exclude exactly that input class: `==` with a Float on the left *)
+Theorem C08_typed_selection_partial : forall farith fpow fcmp i2f o l r,
+  (is_int l || is_float l) = true ->
+  (is_int l = true \/ (has_float_opcode o = true /\ o <> OCmp CEq)) ->
+  right_ok o r = true ->
+  typed farith fpow fcmp i2f o l r = generic farith fpow fcmp i2f o l r.
+Proof. exact typed_partial. Qed.
+Print Assumptions C08_typed_selection_partial.
+
 (* constant folding yields v exactly when the generic instruction returns v ... *)
 Theorem C08_fold_eq : forall farith fpow fcmp i2f o l r v,
   fold farith fpow fcmp i2f o l r = Some v <-> generic farith fpow fcmp i2f o l r = Ok v.
